@@ -116,6 +116,8 @@ class MHistory:
                     d.op_create_apps(priority=self.rng.choice([50, 100, 100]))
             if self.rng.random() < 0.6:
                 d.op_running()
+            if i in restart_at and self.rng.random() < 0.2:
+                d.op_plant_duplicate()
             if i in restart_at:
                 self.ctx.count('master_restarts')
                 d.ops.append(('restart',))
@@ -137,7 +139,9 @@ class MHistory:
         d = self.d
         d.step_no += 1
         d.settle_delivery()
-        if integrity:
+        now = self.clock.peek()
+        if integrity or now - getattr(self, 'last_integrity', -1e9) >= 30.0:
+            self.last_integrity = now
             d.master.check_integrity()
             self.ctx.count('check_integrity_calls')
         d.sync_H()
